@@ -21,6 +21,11 @@ Monitor, on the IMPLEMENTATION's observations only (previous vs. current observa
   claim-not-outdated    a leave / force-leave / left-by-merge claim about the running local node, newer than its status
                         time, was answered by no join with a STRICTLY greater Lamport time: the refutation is not newer
                         than the claim, every other member discards it and keeps the claim (resolution by Lamport time fails)
+  leaving-down-not-left / alive-down-not-failed  memberlist's death notification (worded StateDead or StateLeft) about a
+                        leaving member must make it left, about an alive member failed
+  localstate-left-not-left  LocalState lists a member in LeftMembers that this node does not list as left
+  sync-invents-leave    a fresh peer merging this node's LocalState must receive a non-left member as a join intent at this
+                        node's status time (a left member as a leave at that time + 1)
   merge-stale-applied   same, for an entry of a push/pull merge (left member ⇒ leave at t+1, else join at t)
 -/
 namespace SerfModel.Check.C02
@@ -143,8 +148,25 @@ def step (s : St) (f : List String) (impl : String) : LineOut St :=
         | none =>
           match (s.base.prev.members.filter (·.2.1 == .left)).find? (fun mem => !lf.contains mem.1) with
           | some mem => some ("localstate-missing-left", s!"LocalState does not list left member {mem.1} in LeftMembers")
-          | none => none
+          | none =>
+            -- … and ONLY those: a member that is alive / leaving / failed must travel as a join time, or the receiver
+            -- invents a leave intent at its time + 1
+            match lf.find? (fun x => s.base.prev.statusOf x != some .left) with
+            | some x => some ("localstate-left-not-left", s!"LocalState lists {x} in LeftMembers although this node lists it as {(s.base.prev.statusOf x).map Status.str}")
+            | none => none
       | _, _ => some ("malformed", impl)
+    { state := s, model := some out, monitor := m }
+  | .sync2 x =>
+    -- what a fresh peer (knowing x as alive at time 0) holds after merging this node's LocalState: a member this
+    -- node does NOT list as left reaches it as a JOIN intent at this node's status time; a left one as a leave at +1
+    let want : Option String := match s.base.prev.statusOf x, s.base.prev.ltimeOf x with
+      | some .left, some t => some (if (t + 1) % two64 = 0 then "alive:0" else s!"leaving:{(t + 1) % two64}")
+      | some _, some t => some s!"alive:{t}"
+      | _, _ => some "alive:0"
+    let m : Option (String × String) :=
+      if some impl != want.map (fun w => "peer=" ++ w) then
+        some ("sync-invents-leave", s!"after a push/pull of this node's state a fresh peer holds {impl} for {x}; this node lists it as {(s.base.prev.statusOf x).map Status.str} at {s.base.prev.ltimeOf x}, so the peer must hold peer={want}")
+      else none
     { state := s, model := some out, monitor := m }
   | _ =>
     match parseObs impl with
@@ -173,10 +195,20 @@ def step (s : St) (f : List String) (impl : String) : LineOut St :=
       -- buffered-intent bookkeeping: newest delivered intent per unlisted member; forgotten when the node's buffer entry was reaped
       let best0 := (deliveredIntents prev h).foldl (updBest prev) s.best
       let best := best0.filter fun e => !((prev.intents.find? (·.1 == e.1)).isSome && (o.intents.find? (·.1 == e.1)).isNone)
+      -- memberlist's death notification, however memberlist words it (dead / left): leaving ⇒ left, alive ⇒ failed
+      let down : Option (String × String) := match h with
+        | .ops [.nodeLeave x _] =>
+          (match prev.statusOf x, o.statusOf x with
+          | some .leaving, some .left => none
+          | some .leaving, st => some ("leaving-down-not-left", s!"{x} had announced its leave (leaving) and went down, but is listed as {st.map Status.str} instead of left")
+          | some .alive, some .failed => none
+          | some .alive, st => some ("alive-down-not-failed", s!"{x} was alive and went down, but is listed as {st.map Status.str} instead of failed")
+          | _, _ => none)
+        | _ => none
       let begun := s.begun || beginsLeaving h
       let outdated : Option (String × String) := (refutationFailure begun prev o h).map fun msg => ("claim-not-outdated", msg)
       { state := { base := { node := n', prev := o }, mlUp := mlUp, artLeave := art, best := best, begun := begun }, model := some out,
-        monitor := firstSome [stuck, monotone prev o, stale prev o h, staleBuffered prev o h, joinFromBuffer s.best prev o h, outdated] }
+        monitor := firstSome [stuck, monotone prev o, stale prev o h, staleBuffered prev o h, joinFromBuffer s.best prev o h, outdated, down] }
 
 def checker : Checker := { σ := St, init := {}, step := step }
 
